@@ -4,9 +4,38 @@ stream it can only run out of input, and what it has produced by then is a
 prefix of what it produces on the whole stream.
 -/
 import Compress.Flate.Spec
+import Compress.Proofs.FlatePrefixBlock
 
 namespace Compress.Proofs.FlatePrefix
 open Compress Compress.Flate
+
+theorem decodeBits_eq (bits : Bits) :
+    decodeBits bits = decodeBlocks (0 + bits.length) (bits.length + 1) #[] bits := by
+  rw [Nat.zero_add]; rfl
+
+theorem ofNat_length (v : Nat) : ∀ n, (Bits.ofNat v n).length = n := by
+  intro n
+  induction n generalizing v with
+  | zero => rfl
+  | succ n ih => simp [Bits.ofNat, ih]
+
+theorem ofBytes_take : ∀ (bytes : List UInt8) (k : Nat),
+    Bits.ofBytes (bytes.take k) = (Bits.ofBytes bytes).take (8 * k) := by
+  intro bytes
+  induction bytes with
+  | nil => intro k; simp [Bits.ofBytes]
+  | cons b bs ih =>
+    intro k
+    cases k with
+    | zero => simp [Bits.ofBytes]
+    | succ k =>
+      have hl : (Bits.ofByte b).length = 8 := ofNat_length _ _
+      show Bits.ofByte b ++ Bits.ofBytes (bs.take k) =
+        (Bits.ofByte b ++ Bits.ofBytes bs).take (8 * (k + 1))
+      have e : 8 * (k + 1) - 8 = 8 * k := by omega
+      have e2 : (Bits.ofByte b).take (8 * (k + 1)) = Bits.ofByte b :=
+        List.take_of_length_le (by omega)
+      rw [List.take_append, hl, e2, ih k, e]
 
 /-- **S1 (bits).** If the specification accepts `bits` having consumed `n` bits
     (final padding included), then on every shorter prefix of those `n` bits it
@@ -16,7 +45,19 @@ theorem decodeBits_cut (bits : Bits) (out : Array UInt8) (n : Nat)
     (h : decodeBits bits = { out := out, verdict := .ok n }) (k : Nat) (hk : k < n) (hk8 : k % 8 = 0) :
     (decodeBits (bits.take k)).verdict = .unexpectedEOF ∧
     (decodeBits (bits.take k)).out.toList <+: out.toList := by
-  sorry
+  rw [decodeBits_eq] at h
+  obtain ⟨c, rest, rfl, hn, _, g⟩ := decodeBlocks_good _ _ _ _ _ _ h
+  have hkc : k < c.length := by
+    unfold padTo8 at hn; omega
+  have ht : (c ++ rest).take k = c.take k := List.take_append_of_le_length (by omega)
+  have hl : (c.take k).length = k := by simp; omega
+  rw [ht, decodeBits_eq]
+  rcases g (c.take k) ((c.take k).length + 1) (Or.inr (List.take_prefix k c)) (by omega) with
+    ⟨ys, e, _⟩ | ⟨_, o, e, ho⟩
+  · have := congrArg List.length e
+    simp only [List.length_append] at this
+    omega
+  · rw [e]; exact ⟨rfl, ho⟩
 
 /-- **S1 (bytes): a valid DEFLATE stream cut short at any byte** fails with
     exactly `io.ErrUnexpectedEOF`, having delivered only a prefix of the original. -/
@@ -24,7 +65,9 @@ theorem decode_cut (bytes : List UInt8) (out : Array UInt8)
     (h : decode bytes = { out := out, verdict := .ok (8 * bytes.length) }) (k : Nat) (hk : k < bytes.length) :
     (decode (bytes.take k)).verdict = .unexpectedEOF ∧
     (decode (bytes.take k)).out.toList <+: out.toList := by
-  sorry
+  unfold decode at h ⊢
+  rw [ofBytes_take]
+  exact decodeBits_cut _ _ _ h (8 * k) (by omega) (by omega)
 
 /-- extension: whatever follows an accepted stream does not change the result
     (the decoder never looks past the final block). -/
@@ -32,6 +75,16 @@ theorem decodeBits_ext (bits ext : Bits) (out : Array UInt8) (n : Nat)
     (h : decodeBits bits = { out := out, verdict := .ok n }) :
     (decodeBits (bits ++ ext)).out = out ∧
     ∃ m, (decodeBits (bits ++ ext)).verdict = .ok m := by
-  sorry
+  rw [decodeBits_eq] at h
+  obtain ⟨c, rest, rfl, _, _, g⟩ := decodeBlocks_good _ _ _ _ _ _ h
+  rw [decodeBits_eq]
+  rcases g (c ++ rest ++ ext) ((c ++ rest ++ ext).length + 1)
+      (Or.inl ⟨rest ++ ext, by simp⟩) (by omega) with ⟨ys, _, e⟩ | ⟨hl, _⟩
+  · rw [e]; exact ⟨rfl, n, rfl⟩
+  · simp only [List.length_append] at hl; omega
 
 end Compress.Proofs.FlatePrefix
+
+#print axioms Compress.Proofs.FlatePrefix.decodeBits_cut
+#print axioms Compress.Proofs.FlatePrefix.decode_cut
+#print axioms Compress.Proofs.FlatePrefix.decodeBits_ext
